@@ -148,6 +148,9 @@ class RunModel(Analysis):
         r = self.roles
         if x[0] == 'union' and len(x[1]) == 1 and tuple(x[1])[0][0] == 'comp':
             x = tuple(x[1])[0]
+        if x[0] == 'comp':
+            # a comprehension over a comprehension (`tasks = (j._task for j in jobs); [t for t in tasks if t]`)
+            x = T.flatten_comp(T.mk(x))
         if x[0] == 'union' and len(x[1]) == 1:
             # tasks = []; for j in self.jobs: if j.<registry> is not None: tasks.append(j.<registry>)
             (it,) = tuple(x[1])
@@ -209,6 +212,8 @@ class RunModel(Analysis):
             return True
         sig = self.sigs.get(func.qualname)
         n = func.name
+        if func.cls is not None and func.cls.name.startswith('_') and not func.is_async:
+            return True         # methods of a small helper class private to the package
         private = n.startswith('_') and not (n.startswith('__') and n.endswith('__'))
         if sig is None:
             return private
@@ -258,8 +263,11 @@ class RunModel(Analysis):
             callee, recv, kind = ip.resolve(fterm, fr, node)
             if kind == 'func' and not callee.is_async and not callee.is_generator:
                 sig = self.sigs.get(callee.qualname)
-                if sig is not None and not (sig.suspends or sig.spawns or sig.cancels or sig.raises
-                                            or (sig.stores & self.roles.data_attrs)):
+                helper_obj = callee.cls is not None and callee.cls.name.startswith('_') and recv is not None \
+                    and recv[0] == 'new'
+                if sig is not None and not helper_obj and not (
+                        sig.suspends or sig.spawns or sig.cancels or sig.raises
+                        or (sig.stores & self.roles.data_attrs)):
                     self.skipped.add(callee.qualname)
                     return [(st, ('unk', 'skipped'))]
         return None
